@@ -188,8 +188,14 @@ class Writer:
                 g = e.args[0]
                 if isinstance(g, ast.Name) and isinstance(env.get(g.id), Seq) and g.id in getattr(self, 'listacc', ()):
                     return Seq(env[g.id])        # a list of byte pieces built with .append(): the join is their concatenation
-                if isinstance(g, ast.Name) and isinstance(env.get(g.id), (ast.List, ast.Tuple, ast.ListComp, ast.GeneratorExp)):
+                if isinstance(g, ast.Name) and isinstance(env.get(g.id), (ast.List, ast.Tuple, ast.ListComp, ast.GeneratorExp, ast.IfExp)):
                     g = env[g.id]
+                if isinstance(g, ast.IfExp):
+                    # b''.join(A if c else B): the join of whichever list the flag selects
+                    mk = lambda x: ast.Call(func=e.func, args=[x], keywords=[])
+                    a_, b_ = self.expr(mk(g.body), env, mod), self.expr(mk(g.orelse), env, mod)
+                    if a_ is not None and b_ is not None:
+                        return Seq([('ALT', self.u(g.test, env, mod), a_, b_)]) if a_ != b_ else a_
                 if isinstance(g, (ast.List, ast.Tuple)):
                     # a literal list of pieces: their concatenation
                     out = Seq()
@@ -572,6 +578,9 @@ def select(seq, choose):
     for it in seq:
         if it[0] == 'ALT':
             c = choose(it[1])
+            if c is None and isinstance(it[1], str) and it[1].startswith('not '):
+                c = choose(it[1][4:].strip())
+                c = None if c is None else (not c)
             if c is True:
                 out.extend(select(it[2], choose))
             elif c is False:
